@@ -131,7 +131,7 @@ class Ctx:
             for fn in os.listdir(os.path.join(VERIF, "harness")):
                 if fn.endswith(".go"):
                     shutil.copy(os.path.join(VERIF, "harness", fn), hdir)
-            cmd = ["go", "build", "-cover", "-coverpkg=./...", "-tags", ",".join(tags), "-o", out] + (["-race"] if race else []) + ["./cmd/verifharness"]
+            cmd = ["go", "build", "-cover", "-covermode=atomic", "-coverpkg=./...", "-tags", ",".join(tags), "-o", out] + (["-race"] if race else []) + ["./cmd/verifharness"]
             hdir = REPO
         else:
             cmd += list(extra_flags) + ["."]
